@@ -8,6 +8,7 @@ hand-written incremental readers (multipart form parser, file-part scanner, chun
 from .. import flow, inline, writes
 from ..facts import callee_def, short
 from ..report import AnchorMissing
+from .sigcore import first_writes_from, is_err_write
 
 MP = "s3s::http::multipart::"
 CH = "s3s::http::aws_chunked_stream::"
@@ -526,6 +527,48 @@ def rule_r5(chk, db):
                 "a boundary split across two frames is delivered to the backend as file content")
 
 
+HINTS = ("::is_end_stream", "::size_hint", "::remaining_length", "::exact", "::upper", "::lower")
+PULLS = ("next", "try_next", "poll_next", "poll_frame", "frame", "collect", "poll_next_unpin")
+
+
+def rule_r9(chk, db):
+    """buffered bodies: whether another frame is pulled is decided by the stream ending, never by a length hint.  A body collector that stops
+    because `remaining_length()` / `size_hint()` says nothing remains returns a truncated body whenever the transport's hint is inexact - and
+    only when the body arrives in more than one frame."""
+    n = 0
+    for b in db.bodies.values():
+        if b.crate != "s3s" or "::tests::" in b.name or not any(h[2:] in b.text for h in HINTS):
+            continue
+        root = db.root_of(b).name
+        if not (root.startswith("s3s::http::body::") or root.startswith("s3s::ops::") or root.startswith("s3s::http::multipart") or root.startswith("s3s::http::aws_chunked_stream")):
+            continue
+        if short(root) in ("poll_next", "poll_frame", "size_hint", "is_end_stream", "remaining_length"):
+            continue        # the adapters themselves: C08.R6
+        pulls = {bi for bi, t in b.calls() if short(callee_def(t)) in PULLS and ("stream" in callee_def(t).lower() or "body" in callee_def(t).lower() or "Body" in callee_def(t))}
+        if not pulls:
+            continue
+        oks = {w["bi"] for w in flow.return_writes(b) if w["kind"] in ("Ok", "Some", "use", "call")}
+        for sb in b.live_blocks():
+            t = b.blocks[sb]["term"]
+            if t["k"] != "switch":
+                continue
+            sl = flow.backward(b, t["discr"], at=sb)
+            hint = sorted({short(callee_def(x)) for _, x, _ in sl.calls if any(callee_def(x).endswith(h) for h in HINTS)})
+            if not hint:
+                continue
+            n += 1
+            edges = b.succ_edges(sb)
+            reach = {lab: flow.reach(b, [tb], stop_blocks=frozenset([sb])) for lab, tb in edges}
+            pulling = [lab for lab in reach if reach[lab] & pulls]
+            quiet = [lab for lab in reach if not (reach[lab] & pulls) and (reach[lab] & oks)]
+            # the quiet side is an error return when all its first return writes are Err
+            quiet = [lab for lab in quiet if not all(is_err_write(w) for w in first_writes_from(b, [(sb, lab)]))]
+            chk.verdict(not (pulling and quiet), "R9", "end-by-hint@%s#%d" % (short(root), sb), b.loc(sb),
+                        "whether %s pulls another frame is decided by a length hint (%s): when the hint is inexact the body is returned after its first "
+                        "frame(s) - the outcome depends on how the transport frames the body" % (short(root), ", ".join(hint)))
+    chk.stats["hint_switches"] = n
+
+
 def run(chk, db, tier):
     chk.rule("R1", "the multipart line splitter returns Some(line) only after it has found the line's terminator")
     chk.rule("R2", "transform_multipart: every frame is appended to the buffer try_parse re-reads; the buffer is never cleared / truncated / replaced in the loop")
@@ -543,6 +586,8 @@ def run(chk, db, tier):
     chk.guard("R6", rule_r6, db)
     chk.guard("R7", rule_r7, db)
     chk.guard("R8", rule_r8, db)
+    chk.rule("R9", "buffered bodies: pulling the next frame is never decided by a length hint (remaining_length / size_hint / is_end_stream)")
+    chk.guard("R9", rule_r9, db)
 
 
 META = {
@@ -556,6 +601,6 @@ META = {
                    "searched for inside a single frame; the scan over candidate delimiter positions ends only by exhaustion or a match. Breaking any of "
                    "them makes the outcome depend on where the transport cuts the frames.",
     "not_decided": ["the schedule / partition quantifier itself", "Pending wake-up orders", "parser state equivalence after arbitrary prefixes",
-                    "buffered XML bodies (store_all_unlimited) and plain streamed bodies (pass-through, see C08.R6)"],
+                    "plain streamed bodies (pass-through, see C08.R6)", "buffered XML bodies beyond R9 (collection delegated to http_body_util::BodyExt::collect)"],
     "assumptions": ["rustc nightly MIR construction", "memchr / memchr_iter return positions of the searched byte"],
 }
